@@ -8,7 +8,7 @@ import (
 )
 
 func init() {
-	mirror("modfile.modulepath", "modfile.autoquote", "modfile.isdirpath", "modfile.lex", "modfile.format", "modfile.lineless", "modfile.checkcanonical")
+	mirror("modfile.modulepath", "modfile.autoquote", "modfile.isdirpath", "modfile.lex", "modfile.format", "modfile.lineless", "modfile.checkcanonical", "modfile.parsetree")
 	// token level: the lexer alone (hook LexTokens, build tag verif), on every input that is parsed
 	impls["modfile.lex"] = func(a []string) string {
 		toks, comments, ok := modfile.LexTokens([]byte(unhx(a[0])))
@@ -30,6 +30,14 @@ func init() {
 		}
 		return strings.Join(ts, ",") + " comments=" + cs
 	}
+	// the syntax tree alone (errors collapsed: the regenerated parser reports a syntax error as a panic, as the Go parser does internally)
+	impls["modfile.parsetree"] = func(a []string) string {
+		o := impls["modfile.parsesyntax"](a)
+		if strings.HasPrefix(o, "err") {
+			return "err"
+		}
+		return o
+	}
 	// the block-sorting comparators and checkCanonicalVersion (hooks LineLess / CheckCanonicalVersion)
 	impls["modfile.lineless"] = func(a []string) string {
 		return showBool(modfile.LineLess(a[0], unhxList(a[1]), unhxList(a[2])))
@@ -45,7 +53,7 @@ func init() {
 		if len(f) != 2 || len(f[1]) > 4000 {
 			return nil
 		}
-		out := []string{"modfile.lex " + f[1]}
+		out := []string{"modfile.lex " + f[1], "modfile.parsetree " + f[1]}
 		// adjacent source lines of the input as token lists: realistic exclude / retract / require lines, compared with all
 		// three comparators; (path, version) pairs go to checkCanonicalVersion
 		var toks [][]string
